@@ -641,7 +641,9 @@ Definition run_urlp (ws : list bytes) : bytes :=
           let vb := {| uv_url := []; uv_text := b |} in
           unwords [s2b "eq=" ++ tok_bool (url_eqb va vb); s2b "cmp=" ++ render_cmp (url_cmp va vb);
                    s2b "rcmp=" ++ render_cmp (url_cmp vb va);
-                   s2b "hasheq=" ++ tok_bool (url_eqb va vb)]
+                   s2b "hasheq=" ++ tok_bool (url_eqb va vb);
+                   s2b "clone=" ++ tok_bytes (url_display va);
+                   s2b "clonefrom=" ++ tok_bytes (url_display vb)]
       | _, _ => bad_case
       end
   | _ => bad_case
@@ -781,6 +783,18 @@ Definition run_decode (ws : list bytes) : bytes :=
       match untok_bytes text, url_table urltab with
       | Some text, Some url_ok =>
           let use_ext := is_kw "X" efk in
+          if is_kw "M" efk then
+            (* map-typed extension: the known members as usual, then the names of ALL other members *)
+            let show {A} (dec : json -> option A) (rend : A -> bytes) :=
+              match from_body dec text with
+              | None => s2b "err"
+              | Some v => unwords [s2b "ok"; rend v]
+              end in
+            if is_kw "token" fam then show (decode_token ef_map) (render_token tok_list)
+            else if is_kw "introspection" fam then show (decode_introspection ef_map) (render_introspection tok_list)
+            else if is_kw "device" fam then show (decode_device_auth url_ok ef_map) (render_device_auth tok_list)
+            else bad_case
+          else
           if is_kw "token" fam then
             if use_ext then decode_rt (decode_token ef_ext) (encode_token ef_ext) (render_token render_ext) text
             else decode_rt (decode_token ef_empty) (encode_token ef_empty) (render_token render_unit) text
